@@ -450,9 +450,56 @@ impl<'de, 'c, A: MapAccess<'de>> MapAccess<'de> for PMap<'c, A> {
         cx.ev('R', if r.is_ok() { "ok" } else { "err" }, "");
         r
     }
+    /// forwarded as such (a transparent interposer must not turn `next_entry` into
+    /// `next_key` + `next_value`: the library may implement it separately)
+    fn next_entry_seed<K: DeserializeSeed<'de>, V: DeserializeSeed<'de>>(&mut self, kseed: K, vseed: V) -> Result<Option<(K::Value, V::Value)>, A::Error> {
+        let cx = self.cx;
+        cx.ev('A', "next_entry", "");
+        let slot: RefCell<Option<String>> = RefCell::new(None);
+        let idx = self.nkeys;
+        self.nkeys += 1;
+        let r = self.a.next_entry_seed(PEntryKey { s: kseed, cx, slot: &slot, idx }, PEntryVal { s: vseed, cx, slot: &slot });
+        cx.ev('R', match &r { Ok(Some(_)) => "some", Ok(None) => "none", Err(_) => "err" }, "");
+        r
+    }
     fn size_hint(&self) -> Option<usize> {
         let r = self.a.size_hint();
         self.cx.ev('A', "size_hint", &format!("{r:?}"));
+        r
+    }
+}
+
+struct PEntryKey<'c, 'k, S> {
+    s: S,
+    cx: &'c Ctx,
+    slot: &'k RefCell<Option<String>>,
+    idx: usize,
+}
+impl<'de, 'c, 'k, S: DeserializeSeed<'de>> DeserializeSeed<'de> for PEntryKey<'c, 'k, S> {
+    type Value = S::Value;
+    fn deserialize<D: Deserializer<'de>>(self, d: D) -> Result<S::Value, D::Error> {
+        let cx = self.cx;
+        cx.keycap.borrow_mut().push(None);
+        cx.keyidx.borrow_mut().push(self.idx);
+        let r = self.s.deserialize(PDe { d, cx });
+        cx.keyidx.borrow_mut().pop();
+        *self.slot.borrow_mut() = cx.pop_key();
+        r
+    }
+}
+struct PEntryVal<'c, 'k, S> {
+    s: S,
+    cx: &'c Ctx,
+    slot: &'k RefCell<Option<String>>,
+}
+impl<'de, 'c, 'k, S: DeserializeSeed<'de>> DeserializeSeed<'de> for PEntryVal<'c, 'k, S> {
+    type Value = S::Value;
+    fn deserialize<D: Deserializer<'de>>(self, d: D) -> Result<S::Value, D::Error> {
+        let cx = self.cx;
+        let k = self.slot.borrow_mut().take().unwrap_or_else(|| "<unknown-key>".to_string());
+        cx.path.borrow_mut().push(Seg::Key(k));
+        let r = self.s.deserialize(PDe { d, cx });
+        cx.path.borrow_mut().pop();
         r
     }
 }
@@ -546,6 +593,17 @@ impl<'c, 'v, T: ?Sized + Serialize> Serialize for PVal<'c, 'v, T> {
         let r = self.v.serialize(PSer { s, cx });
         cx.ser_depth.set(cx.ser_depth.get() - 1);
         r
+    }
+}
+
+/// owned variant of `PVal` (items of `collect_seq` / `collect_map`)
+pub struct POwned<'c, T> {
+    v: T,
+    cx: &'c Ctx,
+}
+impl<'c, T: Serialize> Serialize for POwned<'c, T> {
+    fn serialize<S: Serializer>(&self, s: S) -> Result<S::Ok, S::Error> {
+        PVal { v: &self.v, cx: self.cx }.serialize(s)
     }
 }
 
@@ -660,6 +718,27 @@ impl<'c, S: Serializer> Serializer for PSer<'c, S> {
         let r = self.s.serialize_struct_variant(name, idx, variant, len);
         self.cx.ev('R', if r.is_ok() { "ok" } else { "err" }, "");
         Ok(PCompound { s: r?, cx: self.cx })
+    }
+    // forwarded as such: a transparent interposer must not replace the library's own
+    // `collect_seq` / `collect_map` (should it override them) by serde's defaults
+    fn collect_seq<I>(self, iter: I) -> Result<S::Ok, S::Error>
+    where
+        I: IntoIterator,
+        I::Item: Serialize,
+    {
+        let cx = self.cx;
+        cx.ev('S', "collect_seq", "");
+        sret(cx, self.s.collect_seq(iter.into_iter().map(|v| POwned { v, cx })))
+    }
+    fn collect_map<K, V, I>(self, iter: I) -> Result<S::Ok, S::Error>
+    where
+        K: Serialize,
+        V: Serialize,
+        I: IntoIterator<Item = (K, V)>,
+    {
+        let cx = self.cx;
+        cx.ev('S', "collect_map", "");
+        sret(cx, self.s.collect_map(iter.into_iter().map(|(k, v)| (POwned { v: k, cx }, POwned { v, cx }))))
     }
     fn collect_str<T: ?Sized + fmt::Display>(self, v: &T) -> Result<S::Ok, S::Error> {
         self.cx.ev('S', "collect_str", &v.to_string());
